@@ -167,6 +167,73 @@ def proj_polys(exprs, names):
     return None if any(o is None for o in out) else out
 
 
+# ----------------------------------------------------------------------------- substance-key alphabet
+def actualize(cin):
+    """Rewrite a case into the ACTUAL substance keys it asks for (cin["names"], e.g. A -> "H+"):
+    the abstract names of the spec are replaced everywhere a substance key occurs.  Returns the
+    rewritten case and the inverse map used to bring observed names back (unname_obs)."""
+    names = cin.get("names")
+    if not names or list(names) == list(cin["subst"]):
+        return cin, {}
+    fwd = dict(zip(cin["subst"], names))
+    inv = {v: k for k, v in fwd.items()}
+
+    def f(k):
+        if k in fwd:
+            return fwd[k]
+        if isinstance(k, str) and k.startswith("fc_") and k[3:] in fwd:
+            return fcvar(fwd[k[3:]])
+        return k
+    out = dict(cin)
+    out["subst"] = [f(s) for s in cin["subst"]]
+    out["names"] = list(out["subst"])
+    out["rxns"] = [dict(rx, **{part: [[f(k), v] for k, v in rx[part]] for part in ("reac", "prod", "ireac", "iprod")})
+                   for rx in cin["rxns"]]
+    out["feed"] = dict(cin["feed"], order=[f(s) for s in cin["feed"].get("order") or []])
+    if "bind" in cin:
+        out["bind"] = [[f(k), v] for k, v in cin["bind"]]
+    if "cfg" in cin:
+        out["cfg"] = dict(cin["cfg"], symorder=[f(s) for s in cin["cfg"].get("symorder") or []])
+    return out, inv
+
+
+def _is_mono(x):
+    return isinstance(x, list) and len(x) == 3 and isinstance(x[1], int) and isinstance(x[0], list) \
+        and isinstance(x[2], list) and len(x[0]) == 2
+
+
+def unname_obs(obs, inv):
+    """bring every observed substance name (names lists, variable names of monomial tables) back
+    to the abstract names of the spec; monomial tables are re-canonicalised."""
+    if not inv:
+        return obs
+
+    def g(k):
+        if k in inv:
+            return inv[k]
+        if isinstance(k, str) and k.startswith("fc_") and k[3:] in inv:
+            return "fc_" + inv[k[3:]]
+        if isinstance(k, str) and k.startswith("c_") and k[2:] in inv:
+            return "c_" + inv[k[2:]]
+        return k
+
+    def walk(x):
+        if isinstance(x, str):
+            return g(x)
+        if isinstance(x, dict):
+            return {k: (v if k in ("raise", "msg") else walk(v)) for k, v in x.items()}
+        if isinstance(x, list):
+            y = [walk(v) for v in x]
+            if y and all(_is_mono(m) for m in y):
+                return canon_poly(y)
+            return y
+        return x
+    out = walk(obs)
+    if isinstance(out, dict) and isinstance(out.get("params"), list):
+        out["params"] = sorted(out["params"])
+    return out
+
+
 # ----------------------------------------------------------------------------- construction
 def mk_reaction(rx, param):
     from chempy import Reaction
@@ -259,28 +326,111 @@ def var_names(cin):
 
 
 # ----------------------------------------------------------------------------- C03 observations
-def observe_numeric(cin, mode):
+def _param_form(pform, i, value):
+    """how a reaction carries its constant: plain number, MassAction([k]), or the key 'k<i>'"""
+    if pform == "plain":
+        return value
+    if pform == "ma":
+        from chempy.kinetics.rates import MassAction
+        return MassAction([value])
+    if pform == "str":
+        return "k%d" % i
+    raise ValueError(pform)
+
+
+def _container(xs, kind):
+    if kind == "tuple":
+        return tuple(xs)
+    if kind == "ndarray":
+        import numpy as np
+        return np.array(xs)
+    return list(xs)
+
+
+def stoich_tables(rsys, subst, rxns):
+    """the stoichiometry-matrix methods and get_coeff_mtx, projected to nested integer lists"""
+    from chempy.util.stoich import get_coeff_mtx
+
+    def ints(m):
+        return [[int(x) for x in row] for row in m]
+    o = {}
+    o["net"] = guarded(lambda: ints(rsys.net_stoichs()))
+    o["net_keys"] = guarded(lambda: ints(rsys.net_stoichs(subst)))
+    o["areac"] = guarded(lambda: ints(rsys.active_reac_stoichs()))
+    o["allreac"] = guarded(lambda: ints(rsys.all_reac_stoichs()))
+    o["aprod"] = guarded(lambda: ints(rsys.active_prod_stoichs()))
+    o["allprod"] = guarded(lambda: ints(rsys.all_prod_stoichs()))
+    o["coeff"] = guarded(lambda: ints(get_coeff_mtx(subst, [(r.reac, r.prod) for r in rsys.rxns])))
+    o["order"] = guarded(lambda: [int(r.order()) for r in rsys.rxns])
+    o["rkeys"] = guarded(lambda: [sorted(r.keys()) for r in rsys.rxns])
+    return o
+
+
+def observe_numeric(cin, mode, pform="plain", container="list", extras=False):
     """Everything C03 names as an observation point, at the state of the case, in number kind
-    `mode`.  Each entry is a projected value or {"raise": cls}."""
+    `mode`, with the constants carried in form `pform` and arrays passed as `container`.
+    Each entry is a projected value or {"raise": cls}.  extras: also the less common call forms
+    (explicit rate expressions, key selections, repeated evaluation, stoichiometry matrices)."""
     from chempy.kinetics.ode import dCdt_list, law_of_mass_action_rates
+    from chempy.kinetics.rates import MassAction
+    cin, inv = actualize(cin)
     subst = list(cin["subst"])
+    params = [_param_form(pform, rx["k"], conv(kv, mode)) for rx, kv in zip(cin["rxns"], initial_kvs(cin))]
+    rsys = guarded(mk_system, cin, params)
+    if is_raise(rsys):
+        return {"build": rsys}
+    v = variables_for(cin, mode)
+    if pform == "str":
+        for rx in cin["rxns"]:
+            v["k%d" % rx["k"]] = conv(rx["kv"], mode)
+    cs = cstr_arg(cin)
+    replay_history(rsys, cin, lambda i, kv: _param_form(pform, i, conv(kv, mode)),
+                   lambda: ([r.rate(v) for r in rsys.rxns], rsys.rates(v, substance_keys=subst)))
+    obs = {}
+    v0 = dict(v)
+    obs["contrib_keys"] = [guarded(lambda r=r: proj_dict(r.rate(v, substance_keys=subst), subst)) for r in rsys.rxns]
+    obs["contrib_default"] = [guarded(lambda r=r: proj_dict(r.rate(v), subst)) for r in rsys.rxns]
+    obs["rates_keys"] = guarded(lambda: proj_dict(rsys.rates(v, substance_keys=subst, cstr_fr_fc=cs), subst))
+    obs["rates_default"] = guarded(lambda: proj_dict(rsys.rates(v, cstr_fr_fc=cs), subst))
+    if pform != "str":   # the array form takes plain (or MassAction-wrapped) numbers only
+        clist = _container([v[s] for s in subst], container)
+        extra = ({},) if pform == "ma" else ()
+        obs["rvals"] = guarded(lambda: proj_seq(list(law_of_mass_action_rates(clist, rsys, *extra))))
+        if cs is None:
+            obs["dcdt"] = guarded(lambda: proj_seq(list(dCdt_list(
+                rsys, _container(list(law_of_mass_action_rates(clist, rsys, *extra)), container)))))
+    if extras:
+        # evaluating again gives the same, and the caller's variables are left alone
+        obs["rates_again"] = guarded(lambda: proj_dict(rsys.rates(v, substance_keys=subst, cstr_fr_fc=cs), subst))
+        obs["frame"] = (v == v0)
+        obs.update(("st_" + k, x) for k, x in stoich_tables(rsys, subst, cin["rxns"]).items())
+        # explicitly passed rate expressions replace the constants (all / the odd-numbered ones)
+        ov = [conv(q, mode) for q in cin.get("ov") or []]
+        if len(ov) == len(rsys.rxns):
+            for pat in ("all", "mixed"):
+                rx = [MassAction([ov[i]]) if (pat == "all" or i % 2 == 0) else None for i in range(len(ov))]
+                obs["ov%s_contrib" % pat] = [guarded(lambda r=r, x=x: proj_dict(r.rate(v, substance_keys=subst, ratex=x), subst))
+                                             for r, x in zip(rsys.rxns, rx)]
+                obs["ov%s_rates" % pat] = guarded(lambda: proj_dict(
+                    rsys.rates(v, substance_keys=subst, ratexs=rx, cstr_fr_fc=cs), subst))
+    return unname_obs(obs, inv)
+
+
+def observe_selection(cin, mode, keys):
+    """Reaction.rate / ReactionSystem.rates / net_stoichs asked for a sub-permutation `keys` of the
+    substances (no feed)."""
+    cin, inv = actualize(dict(cin, _sel=keys))
+    fwd = dict(zip(inv.values(), inv.keys())) if inv else {}
+    keys = [fwd.get(k, k) for k in keys]
     params = [conv(kv, mode) for kv in initial_kvs(cin)]
     rsys = guarded(mk_system, cin, params)
     if is_raise(rsys):
         return {"build": rsys}
     v = variables_for(cin, mode)
-    cs = cstr_arg(cin)
-    replay_history(rsys, cin, lambda i, kv: conv(kv, mode),
-                   lambda: ([r.rate(v) for r in rsys.rxns], rsys.rates(v, substance_keys=subst)))
     obs = {}
-    obs["contrib_keys"] = [guarded(lambda r=r: proj_dict(r.rate(v, substance_keys=subst), subst)) for r in rsys.rxns]
-    obs["contrib_default"] = [guarded(lambda r=r: proj_dict(r.rate(v), subst)) for r in rsys.rxns]
-    obs["rates_keys"] = guarded(lambda: proj_dict(rsys.rates(v, substance_keys=subst, cstr_fr_fc=cs), subst))
-    obs["rates_default"] = guarded(lambda: proj_dict(rsys.rates(v, cstr_fr_fc=cs), subst))
-    clist = [v[s] for s in subst]
-    obs["rvals"] = guarded(lambda: proj_seq(list(law_of_mass_action_rates(clist, rsys))))
-    if cs is None:
-        obs["dcdt"] = guarded(lambda: proj_seq(dCdt_list(rsys, list(law_of_mass_action_rates(clist, rsys)))))
+    obs["contrib"] = [guarded(lambda r=r: proj_dict(r.rate(v, substance_keys=tuple(keys)), keys)) for r in rsys.rxns]
+    obs["rates"] = guarded(lambda: proj_dict(rsys.rates(v, substance_keys=list(keys)), keys))
+    obs["net"] = guarded(lambda: [[int(x) for x in row] for row in rsys.net_stoichs(keys)])
     return obs
 
 
@@ -289,6 +439,7 @@ def observe_symbolic(cin, kmode):
     (kmode='num', exact rationals) or symbols k<i> (kmode='sym').  Results are monomial tables."""
     import sympy
     from chempy.kinetics.ode import dCdt_list, law_of_mass_action_rates
+    cin, inv = actualize(cin)
     subst = list(cin["subst"])
     if kmode == "num":
         params = [conv(kv, "sym") for kv in initial_kvs(cin)]
@@ -317,7 +468,7 @@ def observe_symbolic(cin, kmode):
     if cs is None:
         clist = [v[s] for s in subst]
         obs["dcdt"] = guarded(lambda: proj_polys(dCdt_list(rsys, list(law_of_mass_action_rates(clist, rsys))), names))
-    return obs
+    return unname_obs(obs, inv)
 
 
 # ----------------------------------------------------------------------------- seeded systems (code -> spec)
@@ -538,11 +689,43 @@ def user_symbols(cin):
     order = cin["cfg"].get("symorder") or []
     if not order:
         return None
+    if cin["cfg"].get("symodict"):
+        from collections import OrderedDict
+        return OrderedDict((s, sympy.Symbol(symname(s))) for s in order)
     return {s: sympy.Symbol(symname(s)) for s in order}
+
+
+def user_param_symbols(cin):
+    """OrderedDict parameter key -> user-made symbol u_<key>, listing the free parameters of the
+    case (the keys of its bind map) in sorted ("order") or reverse-sorted ("rev") key order."""
+    import sympy
+    from collections import OrderedDict
+    ps = cin["cfg"].get("psym", "none")
+    if ps == "none":
+        return None
+    keys = sorted(k for k, v in cin["bind"])
+    if ps == "rev":
+        keys = keys[::-1]
+    return OrderedDict((k, sympy.Symbol("u_" + k)) for k in keys)
+
+
+def param_signature(rsys):
+    """structural projection of the reactions' parameters (to see whether a build left them alone)"""
+    out = []
+    for r in rsys.rxns:
+        p = r.param
+        out.append((type(p).__name__, repr(getattr(p, "args", p)), repr(getattr(p, "unique_keys", None)), id(p)))
+    return out
 
 
 def build_odesys(cin):
     """(odesys, extra) for the configuration of the case, through the real builders."""
+    return build_odesys_full(cin)[0]
+
+
+def build_odesys_full(cin):
+    """((odesys, extra), frame) - frame: the system's parameters are the same objects with the same
+    content after the build(s) as before."""
     from collections import OrderedDict
     from chempy import Substance
     from chempy.kinetics.ode import get_odesys, _create_odesys
@@ -598,7 +781,17 @@ def build_odesys(cin):
         if cstr and cin["feed"].get("usermap"):
             # the caller's own (feed-ratio key, substance -> feed-concentration key) mapping
             cstr = (FEEDVAR, OrderedDict((s, fcvar(s)) for s in order))
-        return get_odesys(rsys, include_params=cfg["incl"], substitutions=subs or None, cstr=cstr, **kw)
+        kw.update(include_params=cfg["incl"], substitutions=subs or None, cstr=cstr)
+        if cfg.get("implicit"):
+            # arguments equal to their documented default are left out
+            for k, dflt in (("include_params", True), ("substitutions", None), ("cstr", False)):
+                if kw[k] is dflt or (k == "cstr" and kw[k] is False):
+                    del kw[k]
+        before = param_signature(rsys)
+        if cfg.get("rebuild"):
+            get_odesys(rsys, **kw)
+        out = get_odesys(rsys, **kw)
+        return out, param_signature(rsys) == before
     pe = {}
     for i, (sk, rx) in enumerate(zip(cfg["subs"], cin["rxns"])):
         if sk == "num":
@@ -613,52 +806,73 @@ def build_odesys(cin):
     usyms = user_symbols(cin)
     if usyms is not None:
         kw["substance_symbols"] = usyms
-    return _create_odesys(rsys, **kw)
+    psyms = user_param_symbols(cin)
+    if psyms is not None:
+        kw["parameter_symbols"] = psyms
+    before = param_signature(rsys)
+    if cfg.get("rebuild"):
+        _create_odesys(rsys, **kw)
+    out = _create_odesys(rsys, **kw)
+    return out, param_signature(rsys) == before
 
 
 def observe_odesys(cin):
     """Project everything C04 names: names, param_names, exprs (monomial tables with symbols
-    mapped BY NAME), f_cb and rate_exprs_cb at the state with parameters bound BY NAME,
-    linear_invariants."""
+    mapped BY NAME), f_cb and rate_exprs_cb at the state - called again at a second state and once
+    more at the first - with parameters bound BY NAME, linear_invariants."""
     import sympy
-    built = guarded(build_odesys, cin)
+    cin, inv = actualize(cin)
+    built = guarded(build_odesys_full, cin)
     if is_raise(built):
         return {"build": built}
-    odesys, extra = built
+    (odesys, extra), frame = built
     names = list(odesys.names)
     pnames = list(odesys.param_names)
     obs = {"build": "ok", "names": names, "params": sorted(pnames),
-           "params_unique": len(set(pnames)) == len(pnames)}
-
-    usyms = user_symbols(cin) if cin["cfg"]["builder"] == "create_odesys" else None
-    if cin["cfg"]["builder"] == "create_odesys":
+           "params_unique": len(set(pnames)) == len(pnames), "frame": bool(frame)}
+    create = cin["cfg"]["builder"] == "create_odesys"
+    usyms = user_symbols(cin) if create else None
+    psyms = user_param_symbols(cin) if create else None
+    if psyms is not None:
+        obs["paramseq"] = (pnames == list(psyms.keys()))
+    if create:
         # which substance does the i-th dependent variable stand for?  user-made symbols are
-        # identified by the symbol the harness created for the substance, default ones by name
-        inv = {v: k for k, v in (usyms or {}).items()}
-        obs["dep"] = [inv.get(sym, "?" + str(sym)) if usyms else str(sym) for sym in odesys.dep]
+        # identified by their name c_<substance>, default ones carry the substance key
+        back = {symname(k): k for k in (usyms or {})}
+        obs["dep"] = [back.get(str(sym), "?" + str(sym)) if usyms else str(sym) for sym in odesys.dep]
 
     def tables():
         rep = {}
         if usyms:
-            for k, sym in usyms.items():
-                rep[sym] = sympy.Symbol(k)
+            for k in usyms:
+                rep[sympy.Symbol(symname(k))] = sympy.Symbol(k)
         else:
             for sym, n in zip(odesys.dep, names):
                 rep[sym] = sympy.Symbol(n)
-        for sym, n in zip(odesys.params, pnames):
-            rep[sym] = sympy.Symbol(n)
+        if psyms:
+            for k in psyms:
+                rep[sympy.Symbol("u_" + k)] = sympy.Symbol(k)
+        else:
+            for sym, n in zip(odesys.params, pnames):
+                rep[sym] = sympy.Symbol(n)
         return proj_polys([sympy.sympify(e).xreplace(rep) for e in odesys.exprs], names + pnames)
     obs["poly"] = guarded(tables)
-    cmap = dict(zip(cin["subst"], cin["c"]))
     bind = dict((k, v) for k, v in cin["bind"])
 
-    def yp():
+    def yp(cvals):
+        cmap = dict(zip(cin["subst"], cvals))
         y = [float(conv(cmap[n], "frac")) for n in names]
         p = [float(conv(bind[n], "frac")) for n in pnames]
         return y, p
-    obs["f"] = guarded(lambda: proj_seq(list(odesys.f_cb(0.0, *yp()))))
+    obs["f"] = guarded(lambda: proj_seq(list(odesys.f_cb(0.0, *yp(cin["c"])))))
     if "rate_exprs_cb" in extra:
-        obs["rvals"] = guarded(lambda: proj_seq(list(extra["rate_exprs_cb"](0.0, *yp()))))
+        obs["rvals"] = guarded(lambda: proj_seq(list(extra["rate_exprs_cb"](0.0, *yp(cin["c"])))))
+    if cin.get("c2"):
+        # the generated callbacks are called again: another state, then the first one once more
+        obs["f2"] = guarded(lambda: proj_seq(list(odesys.f_cb(0.0, *yp(cin["c2"])))))
+        obs["f_again"] = guarded(lambda: proj_seq(list(odesys.f_cb(0.0, *yp(cin["c"])))))
+        if "rate_exprs_cb" in extra:
+            obs["rvals2"] = guarded(lambda: proj_seq(list(extra["rate_exprs_cb"](0.0, *yp(cin["c2"])))))
     li = odesys.linear_invariants
 
     def bmat():
@@ -666,7 +880,7 @@ def observe_odesys(cin):
             return []
         return [[int(x) for x in row] for row in sympy.Matrix(li).tolist()]
     obs["B"] = guarded(bmat)
-    return obs
+    return unname_obs(obs, inv)
 
 
 def gen_build_config(rng, n, substs=(), feed=False):
@@ -728,13 +942,19 @@ def gen_build_config(rng, n, substs=(), feed=False):
                 if builder == "get_odesys":
                     subs[i] = rng.choice(["none", "num", "num2"])
     cfg["qval"] = [rng.choice([2, 3, 5]), 1]
+    cfg["rebuild"] = rng.random() < 0.2
+    cfg["implicit"] = rng.random() < 0.3
+    if builder == "create_odesys":
+        # (user-made parameter symbols need the exact set of free parameters, which only the
+        # spec knows: that form is exercised by the spec -> code cases, not by seeded traces)
+        cfg["symodict"] = bool(cfg["symorder"]) and list(cfg["symorder"]) == list(substs) and rng.random() < 0.5
     return cfg
 
 
 def default_pk_fields():
     return {"gsub": "none", "fsub": "none", "consts": [], "symorder": [],
             "gval": [1, 1], "gsubval": [1, 1], "gconst": [1, 1], "fsubval": [1, 1], "fconst": [1, 1],
-            "qval": [1, 1]}
+            "qval": [1, 1], "psym": "none", "symodict": False, "rebuild": False, "implicit": False}
 
 
 # ----------------------------------------------------------------------------- repository suite (code -> spec)
